@@ -719,6 +719,61 @@ fn sub_lists_with(name: &str, three: bool, cfgs: Vec<Cfg>) -> Sub {
     })
 }
 
+/// Long runs of fixed-size attributes (skip_attributes adds their sizes up before skipping).
+fn sub_long_runs() -> Sub {
+    let forms: Vec<u16> = vec![F_DATA1, F_DATA2, F_DATA4, F_DATA8, F_DATA16, F_REF4, F_ADDR, F_STRP, F_FLAG];
+    let totals: Vec<usize> = vec![200, 254, 255, 256, 257, 300, 511, 512, 513, 1024];
+    let cfgs: Vec<Cfg> = Cfg::all().into_iter().filter(|c| c.version == 5).collect();
+    let nf = forms.len() as u64;
+    let nc = cfgs.len() as u64;
+    Sub::new(
+        "skip-vs-read-long-fixed-runs",
+        nf * nc,
+        "runs of one fixed-size form {data1,data2,data4,data8,data16,ref4,addr,strp,flag} whose sizes add up to about {200,254,255,256,257,300,511,512,513,1024} bytes, ended by {nothing, udata, string, another fixed form} x version 5 encodings x byte order, each list followed by a sentinel: read_attribute one by one vs skip_attributes vs read_entry",
+        move |ctx, i| {
+            let mut mx = Mix(i);
+            let cfg = *mx.pick(&cfgs);
+            let f = *mx.pick(&forms);
+            let mut dies = vec![];
+            for big in [false, true] {
+                let one: usize = match f {
+                    F_DATA1 | F_FLAG => 1,
+                    F_DATA2 => 2,
+                    F_DATA4 | F_REF4 => 4,
+                    F_DATA8 => 8,
+                    F_DATA16 => 16,
+                    F_ADDR => cfg.asz as usize,
+                    _ => cfg.off_size(),
+                };
+                for &t in &totals {
+                    let n = (t + one - 1) / one;
+                    for tail in [None, Some(F_UDATA), Some(F_STRING), Some(F_DATA2)] {
+                        let mut attrs: Vec<PlanAttr> = (0..n)
+                            .map(|ai| {
+                                let (p, ic) = list_payload(cfg, (f, 0), big);
+                                PlanAttr { name: 0x2201 + ai as u16, form: f, implicit: ic, p }
+                            })
+                            .collect();
+                        if let Some(tf) = tail {
+                            let (p, ic) = list_payload(cfg, (tf, 0), big);
+                            attrs.push(PlanAttr { name: 0x2201 + n as u16, form: tf, implicit: ic, p });
+                        }
+                        dies.push(attrs);
+                    }
+                }
+            }
+            let pu = build_plan(cfg, &dies);
+            let case = || format!("{} runs of {}", cfg.render(), form_name(f));
+            if ctx.want_sample() {
+                ctx.sample(format!("{}: {} entries", case(), dies.len()));
+            }
+            let Some((h, ab)) = parse_plan(ctx, &pu, &case) else { return };
+            check_plan(ctx, &pu, &dies, &h, &ab, &Opts { deep: false });
+            ctx.outcome("lists:long-runs-checked");
+        },
+    )
+}
+
 fn sub_indirect(_tier: Tier) -> Sub {
     let forms = decode_forms();
     let cfgs = Cfg::all();
@@ -822,7 +877,7 @@ pub fn def(tier: Tier) -> CheckDef {
             "the line-table variant of parse_attribute (src/read/line.rs) belongs to C04".into(),
         ],
         subs: {
-            let mut v = vec![sub_decode(tier), sub_lists(tier), sub_indirect(tier)];
+            let mut v = vec![sub_decode(tier), sub_lists(tier), sub_indirect(tier), sub_long_runs()];
             if tier == Tier::Quick {
                 v.push(sub_lists3_diagonal());
             }
